@@ -33,7 +33,7 @@ ASSUMPTIONS = [
 ALPHABET = "entry point x input kind x error path"
 BOUND = {"quick": "the full census (about 120 executions)",
          "thorough": "the census plus every quick-tier execution of C07, C10, C12, C14-C20 repeated under the monitor"}
-EXPECT_OUTCOMES = ["clean"]
+EXPECT_OUTCOMES = ["clean", "valid-inputs-processed:handles", "valid-inputs-processed:paths", "valid-inputs-processed:cli"]
 
 
 # thorough tier: the explorations of the path-driven checks run once more with the audit monitor armed and write-trapping
@@ -95,6 +95,34 @@ def _images():
         "hds": BH.build_hds([DATA, HOLE, DATA], [2, None, 1], 8, 2, 23).tobytes(),
         "vhdx": BX.build([DATA, 0, 2], [0, None, None]),
     }
+
+
+def _open_kind_fh(kind, fh):
+    """Like _open_kind for one caller-made file object (single-handle formats)."""
+    if kind.startswith("qcow2"):
+        from dissect.hypervisor.disk import qcow2 as Q
+
+        kw = {"backing_file": _bio(b"\x07" * 8192)} if kind == "qcow2-backing" else {}
+        _read_some(Q.QCow2(fh, **kw))
+    elif kind.startswith("vmdk"):
+        from dissect.hypervisor.disk.vmdk import VMDK
+
+        v = VMDK(fh)
+        _read_some(v, v.read_sectors)
+    elif kind.startswith("vhd-"):
+        from dissect.hypervisor.disk.vhd import VHD
+
+        _read_some(VHD(fh))
+    elif kind == "vdi":
+        from dissect.hypervisor.disk.vdi import VDI
+
+        _read_some(VDI(fh))
+    elif kind == "hds":
+        from dissect.hypervisor.disk.hdd import HDS
+
+        _read_some(HDS(fh))
+    else:
+        raise ValueError(kind)
 
 
 def _open_kind(kind, raw_or_img):
@@ -329,6 +357,18 @@ def _populate(d):
     stor.append((pos, pos + 24, [(BH.DEFAULT_TOP, "Compressed", "c.hds")]))
     with open(os.path.join(hp, "DiskDescriptor.xml"), "w") as f:
         f.write(BH.descriptor_xml(pos + 24, stor, [(BH.DEFAULT_TOP, BH.NULL_GUID)]))
+    # copies of the handle-based images as files (opened by the census itself in r+b / a+b)
+    import gzip as _gzip
+
+    from mc.builders import vmtar as BT
+
+    tar, _ = BT.build([("d/", "vdir", b""), ("d/a", "visor", b"A" * 513), ("d/u", "ustar", b"U" * 700)], 512)
+    blobs = {k: v for k, v in _images().items() if k != "vhdx"}
+    blobs["vmtar"] = tar
+    blobs["vmtar-gz"] = _gzip.compress(tar, mtime=0)
+    for kind, raw in blobs.items():
+        with open(os.path.join(vm, "modes-" + kind + ".bin"), "wb") as f:
+            f.write(raw)
     bad = os.path.join(vm, "nodesc.hdd")
     os.makedirs(bad)
     bad2 = os.path.join(vm, "badtype.hdd")
@@ -423,6 +463,52 @@ def _work_paths(vm, g0):
     yield "path:hdd:file-in-dir", (lambda: hdd(Path(vm) / "disk.hdd" / "disk.hdd")), False
     yield "path:hdd:guid", (lambda: hdd(Path(vm) / "disk.hdd", g0)), False
 
+    # handles the caller opened in a mode that would allow writing (r+b, a+b) or that merely report such a mode (a spooled
+    # temporary file says "w+b"): the library is handed a readable object and leaves it as it is
+    import gzip
+    import tempfile
+
+    imgs = _images()
+    from mc.builders import vmtar as BT
+
+    tar, _ = BT.build([("d/", "vdir", b""), ("d/a", "visor", b"A" * 513), ("d/u", "ustar", b"U" * 700)], 512)
+    blobs = dict(imgs)
+    blobs.pop("vhdx", None)
+    blobs["vmtar"] = tar
+    blobs["vmtar-gz"] = gzip.compress(tar, mtime=0)
+    for kind, raw in sorted(blobs.items()):
+        for mode in ("r+b", "a+b", "spooled"):
+            def f(kind=kind, raw=raw, mode=mode):
+                if mode == "spooled":
+                    fh = tempfile.SpooledTemporaryFile(max_size=1 << 26)
+                    fh.write(raw)
+                    fh.seek(0)
+                else:
+                    fh = open(os.path.join(vm, "modes-" + kind + ".bin"), mode)
+                    fh.seek(0)
+                try:
+                    try:
+                        if kind.startswith("vmtar"):
+                            from dissect.hypervisor.util import vmtar
+
+                            t = vmtar.open(fileobj=fh)
+                            for m in t.getmembers():
+                                if m.isreg():
+                                    t.extractfile(m).read()
+                            t.close()
+                        else:
+                            _open_kind_fh(kind, fh)
+                    finally:
+                        # whatever the library made of the input: the caller's object holds what it held before
+                        fh.seek(0)
+                        now = fh.read()
+                        if now != raw:
+                            vfile.MUTATIONS.append((f"{kind}:{mode}", "content-changed", f"{len(now)} bytes, expected {len(raw)}"))
+                finally:
+                    fh.close()
+
+            yield f"path:handle-mode:{kind}:{mode}", f, False
+
     def hdd_big():
         from dissect.hypervisor.disk.hdd import HDD
 
@@ -500,6 +586,7 @@ def run_case(case, ctx):
         work = {"handles": _work_handles, "errors": _work_errors, "paths": lambda: _work_paths(vm, g0),
                 "cli": lambda: _work_cli(vm, d)}[group]()
         sites = set()
+        failed_valid = []
         for item in work:
             name, fn, is_error = item[0], item[1], item[2]
             allow = item[3] if len(item) > 3 else None
@@ -514,9 +601,11 @@ def run_case(case, ctx):
                         fn()
                     except Exception as e:
                         if not is_error:
-                            ctx.violation(dict(case, only=name), {"subject": "census", "kind": "workload-failed", "exc": type(e).__name__},
-                                          {"execution": name, "exception": repr(e)[:300]})
-                            return
+                            # a well-formed input the tree under test cannot process: not a matter of this property (it is
+                            # reported by the check of the property that covers the format); what was observed up to the
+                            # failure is still judged, and the failure is counted in the evidence
+                            ctx.extra["census-executions-that-raised-on-valid-input"] += 1
+                            failed_valid.append(name)
                 evs = list(events)
             if any(e[0] == "open" and e[2] for e in evs) or is_error:
                 ctx.nontrivial += 1
@@ -528,6 +617,8 @@ def run_case(case, ctx):
             ctx.outcome("clean")
         for s in sorted(sites):
             ctx.extra["opened-at:" + s] += 1
+        if not failed_valid and only is None:
+            ctx.outcome("valid-inputs-processed:" + group)  # vacuity guard: a census whose inputs are refused vouches for nothing
         for t in list(_HELD.values()):
             try:
                 t.close()
